@@ -506,7 +506,11 @@ def purge(node: dawgie.pl.dag.Node, target: str):
 def _purge(node: dawgie.pl.dag.Node, target: str):
     if target in node.get('do', []):
         node.get('do').remove(target)
-    if target in node.get('doing', []):
+    # what a dependent is executing stays until its own result arrives
+    if (
+        target in node.get('doing', [])
+        and node.get('status') is not State.running
+    ):
         node.get('doing').remove(target)
     if target in node.get('todo', []):
         node.get('todo').remove(target)
